@@ -1,4 +1,4 @@
-(** Model of labrea/runtime.py (as of fix: commits 93f0f4c and fd53836), one thread.
+(** Model of labrea/runtime.py (as of fix: commits 93f0f4c, fd53836 and 8a7cb3b), one thread.
     Executable definitions only; proofs are in Proofs/RuntimeProofs.v, statements in
     Properties/C14.v.
 
@@ -7,9 +7,10 @@
       2. the CONCRETE thread state of the code: _RUNTIMES[thread], _PREVIOUS[thread]
       3. the ABSTRACT specification of the property text: a stack of entered runtimes
          over an optional base runtime
-    plus, at the end and clearly separated, the OLD (pre-93f0f4c) enter/exit with the
-    [previous] pointer stored on the runtime object, kept only to document what the fix
-    bought (Properties/C14.v: C14_old_code_refuted). *)
+    plus, at the end and clearly separated, two OLD variants kept only to document what the
+    fixes bought: the pre-93f0f4c enter/exit with the [previous] pointer stored on the runtime
+    object (C14_old_code_refuted) and the pre-8a7cb3b [or] fallback of Runtime.run
+    (C14_old_or_fallback_refuted). *)
 From Coq Require Import List NArith Bool.
 Import ListNotations.
 
@@ -28,12 +29,6 @@ Fixpoint lookup {A} (k : N) (l : list (N * A)) : option A :=
   | [] => None
   | (k', v) :: l' => if N.eqb k k' then Some v else lookup k l'
   end.
-
-(** runtime.py:176 uses [self.handlers.get(T) or _DEFAULT_HANDLERS[T]]: a held handler whose
-    truth value is False is skipped.  Functions, lambdas, bound methods, classes are always
-    true; tag 0 stands for a callable object whose [__bool__]/[__len__] makes it false. *)
-Definition falsy_tag : tag := 0%N.
-Definition truthy (h : tag) : bool := negb (N.eqb h falsy_tag).
 
 (** * 1. Object store *)
 Record objs := mkObjs {
@@ -75,18 +70,20 @@ Inductive obs :=
 | ORaised               (* block left by exception; __exit__ returned None: propagates   *)
 | OUnmatchedExit.       (* __exit__ without matching __enter__ (KeyError / IndexError)    *)
 
-(** [Runtime.run(self, request)] (runtime.py:175-184):
-      try:    handler = self.handlers.get(type(request)) or _DEFAULT_HANDLERS[type(request)]
-      except KeyError: raise TypeError
-      return handler(request)                                                            *)
+(** [Runtime.run(self, request)] (runtime.py:175-186):
+      try:                handler = self.handlers[type(request)]
+      except KeyError:
+          try:            handler = _DEFAULT_HANDLERS[type(request)]
+          except KeyError: raise TypeError
+      return handler(request)
+    A held handler always serves, whatever its truth value. *)
 Definition serve (o : objs) (r : rid) (t : ty) : obs :=
-  let dflt := match lookup t (defaults o) with
-              | Some d => OServed d
-              | None => OTypeError
-              end in
   match lookup t (handlers_of o r) with
-  | Some h => if truthy h then OServed h else dflt
-  | None => dflt
+  | Some h => OServed h
+  | None => match lookup t (defaults o) with
+            | Some d => OServed d
+            | None => OTypeError
+            end
   end.
 
 (** * Operations (one thread) *)
@@ -264,17 +261,6 @@ Fixpoint ctl_ok (c : option rid) (sv : list (option rid)) : bool :=
   end.
 Definition state_ok (s : state) : bool := ctl_ok (cur s) (saved s).
 
-(** Side conditions used by the theorems (computable). *)
-Definition table_truthy (t : table) : bool := forallb (fun p => truthy (snd p)) t.
-Definition objs_truthy (o : objs) : bool :=
-  forallb (fun c => table_truthy (snd c)) (heap o) && table_truthy (defaults o).
-Definition op_truthy (c : op) : bool :=
-  match c with
-  | New ov | Derive _ ov => table_truthy ov
-  | RegisterDefault _ h => truthy h
-  | _ => true
-  end.
-
 (** Object identities are fresh: every allocated id is below the counter. *)
 Definition heap_fresh (o : objs) : bool :=
   forallb (fun c => N.ltb (fst c) (next o)) (heap o).
@@ -385,3 +371,36 @@ Fixpoint run_old (ops : list op) (s : ostate) : ostate * list oobs :=
 
 Definition old_fresh_thread (o : objs) : ostate := mkO o [] OAbsent [].
 Definition old_thread_with (r : rid) (o : objs) : ostate := mkO o [] (ORt r) [].
+
+(** * OLD CODE (fd53836 .. before fix: 8a7cb3b) -- documentation only, NOT the current /repo.
+    [Runtime.run] was
+      handler = self.handlers.get(type(request)) or _DEFAULT_HANDLERS[type(request)]
+    so a held handler whose truth value is False was skipped in favour of the default.
+    Functions, lambdas, bound methods and classes are always true; [falsy_tag] stands for a
+    callable object whose [__bool__]/[__len__] makes it false. *)
+Definition falsy_tag : tag := 0%N.
+Definition truthy (h : tag) : bool := negb (N.eqb h falsy_tag).
+
+Definition serve_or_old (o : objs) (r : rid) (t : ty) : obs :=
+  let dflt := match lookup t (defaults o) with
+              | Some d => OServed d
+              | None => OTypeError
+              end in
+  match lookup t (handlers_of o r) with
+  | Some h => if truthy h then OServed h else dflt
+  | None => dflt
+  end.
+
+Definition step_or_old (c : op) (s : state) : state * obs :=
+  match c with
+  | Run t => let (r, s1) := current_runtime s in (s1, serve_or_old (ob s1) r t)
+  | _ => step c s
+  end.
+
+Fixpoint run_or_old (ops : list op) (s : state) : state * list obs :=
+  match ops with
+  | [] => (s, [])
+  | c :: rest =>
+      let (s1, o) := step_or_old c s in
+      let (s2, os) := run_or_old rest s1 in (s2, o :: os)
+  end.
